@@ -36,6 +36,7 @@ func init() {
 type c18 struct {
 	c     *mon.Ctx
 	entry string
+	cited int
 }
 
 // step runs one entry point under a panic monitor.
@@ -79,6 +80,19 @@ var c18db = func() *memKeyDB {
 }()
 
 // exercise applies everything the library offers to an event that some parser accepted.
+// citedTypes are the event types the auth rules and the resolvers read from an event's auth events.
+var citedTypes = map[string]bool{"m.room.power_levels": true, "m.room.join_rules": true, "m.room.create": true, "m.room.member": true, "m.room.third_party_invite": true}
+
+// citeThisOne thins the cited-as-auth-event step out (four events are built and signed for it): every
+// power-levels event in the quick tier's first thousand, afterwards and for the other types one in eight.
+func (x *c18) citeThisOne(p gmsl.PDU) bool {
+	x.cited++
+	if p.Type() == "m.room.power_levels" && x.cited < 1000 {
+		return true
+	}
+	return x.cited%8 == 0
+}
+
 func (x *c18) exercise(p gmsl.PDU, w *world, tag string) {
 	if p == nil {
 		return
@@ -182,6 +196,44 @@ func (x *c18) exercise(p gmsl.PDU, w *world, tag string) {
 			noRej := func(string) bool { return false }
 			_, _ = gmsl.ResolveConflictsNew(p.Version(), [][]gmsl.PDU{setA, setB, setC}, auth, userIDForSender, noRej)
 			_, _ = gmsl.ResolveConflicts(p.Version(), append(append(append([]gmsl.PDU{}, setA...), setB...), setC...), auth, userIDForSender, noRej)
+		})
+	}
+	if p.StateKey() != nil && citedTypes[p.Type()] && x.citeThisOne(p) {
+		// cited as an auth event by several conflicted events of the room (whoever sends events chooses what they
+		// cite): the resolver looks things up in it once per citing event
+		x.step(tag+":state-resolution(cited-as-auth-event)", func() {
+			mk := func(typ, sk, sender string, content string, ts int) gmsl.PDU {
+				w.seq++
+				ps := protoSpec{Type: typ, StateKey: &sk, Sender: sender, RoomID: w.roomID, Content: []byte(content), Prev: []string{w.create.EventID()}, Depth: w.seq + 1,
+					Auth: []string{p.EventID(), w.members[[2]string{sender, "join"}].EventID()}}
+				if !w.t.Domainless {
+					ps.Auth = append([]string{w.create.EventID()}, ps.Auth...)
+				}
+				ev, err := buildEvent(w.ver, ps, serverIdentity(serverOf(sender)), baseTime.Add(time.Duration(ts)*time.Second))
+				if err != nil {
+					return nil
+				}
+				return ev
+			}
+			a, b := authUsers[1], authUsers[2]
+			evs := []gmsl.PDU{
+				mk("m.room.join_rules", "", a, `{"join_rule":"invite"}`, 1), mk("m.room.join_rules", "", b, `{"join_rule":"public"}`, 2),
+				mk("m.room.power_levels", "", a, `{"users":{}}`, 3), mk("m.room.power_levels", "", b, `{"users_default":1}`, 4),
+				mk("m.room.member", authUsers[3], a, `{"membership":"ban"}`, 5), mk("m.room.topic", "", b, `{"topic":"t"}`, 6),
+			}
+			for _, e := range evs {
+				if e == nil {
+					return
+				}
+			}
+			base := []gmsl.PDU{w.create, w.members[[2]string{a, "join"}], w.members[[2]string{b, "join"}]}
+			setA := append(append([]gmsl.PDU{}, base...), evs[0], evs[2], evs[4])
+			setB := append(append([]gmsl.PDU{}, base...), evs[1], evs[3], evs[5])
+			auth := append(append(append([]gmsl.PDU{}, std...), p), evs...)
+			noRej := func(string) bool { return false }
+			_, _ = gmsl.ResolveConflictsNew(p.Version(), [][]gmsl.PDU{setA, setB}, auth, userIDForSender, noRej)
+			_, _ = gmsl.ResolveConflicts(p.Version(), append(append([]gmsl.PDU{}, setA...), setB...), auth, userIDForSender, noRej)
+			_ = gmsl.ReverseTopologicalOrdering(append([]gmsl.PDU{p}, evs...), gmsl.TopologicalOrderByAuthEvents)
 		})
 	}
 	if p.StateKey() == nil {
